@@ -122,6 +122,15 @@ def better_repr(v) -> str:
         if len(v) == 1:
             return "[%s,]" % better_repr(v[0])
         return "[%s]" % ", ".join(better_repr(i) for i in v)
-    # TODO: elif deal with sets and dicts
+    elif isinstance(v, (set, frozenset)):
+        # The iteration order of a set depends on the running interpreter
+        # (string hashing differs between versions and, without
+        # PYTHONHASHSEED, between runs): list the members in sorted order
+        # so that the same constant always prints the same way.
+        members = ", ".join(sorted(better_repr(i) for i in v))
+        if isinstance(v, frozenset):
+            return "frozenset({%s})" % members if members else "frozenset()"
+        return "{%s}" % members if members else "set()"
+    # TODO: elif deal with dicts
     else:
         return repr(v)
